@@ -411,6 +411,28 @@ def _float_forcing(ctx: Ctx, f: FunctionInfo, e: ast.AST, bounds: set, depth: in
         if nm in ("max", "min") and e.args:
             vs = [_float_forcing(ctx, f, a, bounds, depth + 1) for a in e.args]
             return False if False in vs else True if all(v is True for v in vs) else None
+        # a helper of the repository (module-level function or method of the same class): its returns decide, with the bound
+        # parameters of this function mapped to the helper's parameters they are passed as
+        callee = None
+        if isinstance(e.func, ast.Name):
+            full = ctx.prog.resolve_name(f.module, e.func.id)
+            callee = ctx.prog.functions.get(full) if full else None
+            off = 0
+        elif isinstance(e.func, ast.Attribute) and isinstance(e.func.value, ast.Name) and e.func.value.id == "self" and f.cls is not None:
+            callee = ctx.prog.lookup_method(f.cls, e.func.attr)
+            off = 1
+        if callee is not None and depth < 3 and isinstance(callee.node, (ast.FunctionDef, ast.AsyncFunctionDef)):
+            cb = set()
+            for p_, a in zip(callee.params[off:], e.args):
+                if isinstance(a, ast.Name) and a.id in bounds:
+                    cb.add(p_)
+            for k_ in e.keywords:
+                if k_.arg and isinstance(k_.value, ast.Name) and k_.value.id in bounds:
+                    cb.add(k_.arg)
+            rets = [r.value for r in walk_local(callee.node) if isinstance(r, ast.Return) and r.value is not None]
+            vs = [_float_forcing(ctx, callee, r, cb, depth + 1) for r in rets]
+            if vs:
+                return False if False in vs else True if all(v is True for v in vs) else None
         k = kind_of(ctx, f, e)
         return True if k == "float" and not any(isinstance(x, ast.Name) and x.id in bounds for x in ast.walk(e)) else None
     return None
